@@ -58,7 +58,7 @@ func GenUnobstructedScript(t *rapid.T, o GenOpts) *Script {
 			k++
 		}
 	}
-	np := rapid.IntRange(1, 2).Draw(t, "upending")
+	np := rapid.IntRange(1, 3).Draw(t, "upending")
 	for i := 0; i < np; i++ {
 		w := WorkloadSpec{Name: fmt.Sprintf("p%d", i), Queue: pick(t, "pq", leaves...), MinMember: 1, AgeSec: int64(rapid.IntRange(1, 5000).Draw(t, "page")),
 			PriorityClass: pick(t, "ppc", "train", "low", "build", "inference", "")}
